@@ -18,7 +18,8 @@ StarsOnlyLength(c) == \A k \in 1..Len(c.records) : \A j \in 1..Len(c.records[k].
 NonInterference(c) == c.msgs = c.twin_msgs
 \* the session really was a login attempt with the expected outcome (guards against vacuous runs)
 Exercised(c) == c.outcome \in {"accepted", "rejected", "out-of-sequence", "after-login"} /\ c.observed = c.outcome
-Ok(c) == NoSecretInLog(c) /\ StarsOnlyLength(c) /\ NonInterference(c) /\ Exercised(c)
+\* (StarsOnlyLength is what aioftp does today; revealing less than the length is just as good, so it is not demanded)
+Ok(c) == NoSecretInLog(c) /\ NonInterference(c) /\ Exercised(c)
 Init == i = 1
 Next == i <= Len(Cases) /\ i' = i + 1
 Spec == Init /\ [][Next]_i
